@@ -15,11 +15,11 @@ def two_chrom_graph(blocks1=("snp", "link", "insertion"), blocks2=("deletion",),
     return gen.merge_graphs([c1.g, c2.g]), c1, c2
 
 
-def tag_by_model(g, chains, with_untagged=True):
+def tag_by_model(g, chains, with_untagged=True, bo_start=0):
     """hand-tagged copy: BO increasing along each chain (chr1 then chr2), NO by sorted id; optionally an extra node
     carrying BO = NO = -1 (what an untagged node looks like to sort) hanging off the last scaffold of chr1."""
     out = rgfa.Graph()
-    bo = 0
+    bo = bo_start
     tags = {}
     for ch in chains:
         for kind, x in ch.order:
@@ -34,7 +34,8 @@ def tag_by_model(g, chains, with_untagged=True):
         out.add_seg(s.id, s.seq, [t for t in s.tags if t[0] not in ("BO", "NO")] + [("BO", "i", str(b)), ("NO", "i", str(n))])
     out.links = list(g.links)
     if with_untagged:
-        last_scaffold = [x for k, x in chains[0].order if k == "s"][-1]
+        first_chain = [c for c in chains if c.chrom == "chr1"][0] if any(c.chrom == "chr1" for c in chains) else chains[0]
+        last_scaffold = [x for k, x in first_chain.order if k == "s"][-1]
         out.add_seg("u1", "ACGTAC", [("LN", "i", "6"), ("SN", "Z", "hU#1#c"), ("SO", "i", "500"), ("SR", "i", "3"), ("BO", "i", "-1"), ("NO", "i", "-1")])
         out.add_link(last_scaffold, "+", "u1", "+", "0M")
     return out
